@@ -45,6 +45,11 @@ Sensitivity (quick tier, seed 1, scratch copy of /repo/tornado/queues.py; all ca
   M9  _consume_expired skips only putters                   -> crash.InvalidStateError..., C35.qsize
   M10 _consume_expired skips only getters                   -> crash.InvalidStateError..., C35.qsize
   M11 __put_internal does not clear the finished event      -> C35.join_completed_without_cause
+  M12 locks.Event.set (behind Queue.join) drops its `if not fut.done()` guard: the task_done matching the last
+      put raises InvalidStateError when a joiner was cancelled in the same loop turn, other joiners never
+      complete.  Missed by the first version at seeds 1,2,3 (cancel_oldest targeted get/put only and always let
+      the loop run before task_done); now caught at seeds 1,2,3 by the "joins" part and the main part
+      (cancel_join op, no-settle variants, several joiners)  -> crash.InvalidStateError@locks.py:set
 """
 import itertools
 
@@ -64,7 +69,8 @@ RULE = (
     "step, calls without settling, plus tie blocks (deadline and complementary operation at the same instant in "
     "both orders, expired waiter at the head / in the middle); plus exhaustive enumeration of all sequences of "
     "length <=L over {put, put_t1, get, get_t1, task_done, join, cancel_oldest, tick} for each class x maxsize "
-    "{0,1} (L=4 quick, 6 thorough); non-trivial = a blocked getter/putter times out or is cancelled, or a "
+    "{0,1} (L=4 quick, 6 thorough), and of all sequences of length <=L after one put over {put, task_done, join, "
+    "join_t1, cancel of the oldest pending join without running the loop, jump, loop step, tick}; non-trivial = a blocked getter/putter times out or is cancelled, or a "
     "complementary operation occurs while one is blocked; distinct = SHA-1 of the case"
 )
 ASSUMPTIONS = [
@@ -416,6 +422,12 @@ class Run:
             cand = [r for r in self.recs if r.state == PENDING and r.typ in ("get", "put")]
             if cand:
                 ck = self.do_cancel(cand[0])
+        elif kind == "cancel_join":
+            cand = [r for r in self.recs if r.typ == "join" and r.state in OPEN]
+            if cand:
+                if len(cand) >= 2:
+                    self.labels.add("cancel_join_with_other_joiners")
+                ck = self.do_cancel(cand[op[1] % len(cand)])
         else:
             raise ValueError(op)
         self.reconcile("none", ck)
@@ -560,7 +572,7 @@ def run_case(ctx, case):
 # ------------------------------------------------------------------------------------- strategies
 POS = [0.25, 0.5, 1.0, 1.5, 2.0]
 KINDS = (["put"] * 12 + ["put_t"] * 10 + ["put_nowait"] * 5 + ["get"] * 10 + ["get_t"] * 10 + ["get_nowait"] * 5
-         + ["task_done"] * 8 + ["join"] * 3 + ["join_t"] * 4 + ["cancel"] * 6 + ["adv"] * 10 + ["jump"] * 4 + ["step"] * 3)
+         + ["task_done"] * 8 + ["join"] * 4 + ["join_t"] * 4 + ["cancel"] * 6 + ["cancel_join"] * 3 + ["adv"] * 10 + ["jump"] * 4 + ["step"] * 3)
 
 
 def _single(kind, to, k, dt, ns, prio):
@@ -580,6 +592,8 @@ def _single(kind, to, k, dt, ns, prio):
         op = ("join", to)
     elif kind == "cancel":
         op = ("cancel", k)
+    elif kind == "cancel_join":
+        op = ("cancel_join", k % 3)
     elif kind in ("adv", "jump"):
         return [(kind, dt)]
     elif kind == "step":
@@ -619,12 +633,19 @@ def _tie(form, d, variant, p):
         return [P(0), P(1), P(2), P(3), P(0), ("cancel", 1), G, G]  # cancelled putter
     if variant == 12:
         return [("ns", ("get", (form, 0.0))), P(0)]  # already-due getter and put in one iteration
-    return [P(0), ("join", to), ("jump", d), ("ns", ("task_done",)), ("step",)]
+    if variant == 13:
+        return [P(0), ("join", to), ("jump", d), ("ns", ("task_done",)), ("step",)]
+    if variant == 14:  # a joiner is cancelled and the last task_done follows before the loop runs again
+        return [P(0), ("join", None), ("join", None), ("join", to), ("ns", ("cancel_join", p % 3)), ("task_done",)]
+    if variant == 15:  # a joiner's timer fires; the last task_done lands between the following loop iterations
+        return [P(0), ("join", None), ("join", to), ("jump", d)] + [("step",)] * (1 + p % 3) + [("ns", ("task_done",)), ("step",)]
+    return [P(0), P(1), ("join", None), ("ns", ("task_done",)), ("join", None), ("ns", ("cancel_join", p % 2)),
+            ("ns", ("task_done",)), ("ns", P(2)), ("join", to), ("adv", d)]
 
 
 single_s = st.builds(_single, st.sampled_from(KINDS), ph.some_timeout_s(), st.integers(0, 7),
                      st.sampled_from(ph.STEPS), st.sampled_from([False] * 4 + [True]), st.integers(0, 3))
-tie_s = st.builds(_tie, st.sampled_from(["abs", "td"]), st.sampled_from(POS), st.integers(0, 13), st.integers(0, 3))
+tie_s = st.builds(_tie, st.sampled_from(["abs", "td"]), st.sampled_from(POS), st.integers(0, 16), st.integers(0, 3))
 block_s = st.one_of(single_s, single_s, single_s, single_s, single_s, single_s, tie_s)
 
 
@@ -671,10 +692,25 @@ def grid_cases(maxlen):
                     yield {"cls": cls, "maxsize": maxsize, "ops": _grid_ops(seq)}
 
 
-PARTS = {"main": run_case, "grid": run_case}
+JOIN_SYMBOLS = [("put", 1, None), ("task_done",), ("join", None), ("join", ("abs", 1.0)), ("ns", ("cancel_join", 0)),
+                ("jump", 1.0), ("step",), ("adv", 1.0)]
+
+
+def join_cases(maxlen):
+    """join/task_done accounting with several joiners: after one put, every sequence over {put, task_done, join,
+    join_t1, cancel of the oldest pending join WITHOUT running the loop, jump (deadline passes, timer not yet
+    run), single loop step, tick}.  Covers task_done arriving in the same loop turn as a joiner's cancellation or
+    expiry, with other joiners pending."""
+    for n in range(1, maxlen + 1):
+        for seq in itertools.product(JOIN_SYMBOLS, repeat=n):
+            yield {"cls": "fifo", "maxsize": 0, "ops": [("put", 0, None)] + list(seq)}
+
+
+PARTS = {"main": run_case, "grid": run_case, "joins": run_case}
 
 
 def main(ctx):
     ctx.run_replays(PARTS)
     ctx.explore(case_s, run_case, ctx.n(1500, 100000), name="main")
+    ctx.enumerate(join_cases(6 if ctx.thorough else 4), run_case, name="joins")
     ctx.enumerate(grid_cases(6 if ctx.thorough else 4), run_case, name="grid")
